@@ -1227,7 +1227,11 @@ func (m *Dot11) ChecksumValid() bool {
 }
 
 func (m Dot11) SerializeTo(b gopacket.SerializeBuffer, opts gopacket.SerializeOptions) error {
-	buf, err := b.PrependBytes(24)
+	size := 24
+	if m.Type.MainType() == Dot11TypeData && m.Flags.FromDS() && m.Flags.ToDS() {
+		size += 6 // the fourth address follows the sequence control field
+	}
+	buf, err := b.PrependBytes(size)
 
 	if err != nil {
 		return err
